@@ -240,6 +240,40 @@ def one_language(res, tier, cases, cxx):
     res.add(traces_validated_against_impl=len(cases), marked_types=len(cases))
 
 
+def opaque_typedefs(res):
+    """An opaque marking can also name a typedef, and a typedef can carry its own alignment (lower than its
+    type's: compat_u64; higher: an over-aligned struct typedef).  The blob must have the TYPEDEF's size and
+    alignment: the records that contain it keep clang's offsets and size (bindgen's own layout assertions, which state
+    libclang's numbers, are the judge)."""
+    from checks.c09 import rustc_batch
+    w = C.workdir("c10-typedefs")
+    tds = [("compat_u64", "typedef unsigned long long compat_u64 __attribute__((aligned(4)));"),
+           ("compat_f64", "typedef double compat_f64 __attribute__((aligned(4)));"),
+           ("vec2a", "typedef struct { double x, y; } vec2a __attribute__((aligned(16)));"),
+           ("blob32a", "typedef struct { char b[32]; } blob32a __attribute__((aligned(32)));"),
+           ("ll_al2", "typedef long long ll_al2 __attribute__((aligned(2)));"),
+           ("plain_td", "typedef struct { int a; char b; } plain_td;")]
+    text = "\n".join(t for _, t in tds) + "\n"
+    for k, (n, _) in enumerate(tds):
+        # (no arrays: an array of a typedef whose alignment exceeds its size has no C layout worth the name)
+        text += "struct Rec%d { char c; %s m; char d; %s m2; char e; };\n" % (k, n, n)
+    text += "struct RecAll { char c; compat_u64 s; char d; vec2a v; char e; compat_f64 f; blob32a b; ll_al2 l; void *p; };\n"
+    hp = os.path.join(w, "td.h")
+    with open(hp, "w") as f:
+        f.write(text)
+    out = os.path.join(w, "td.rs")
+    fl = [x for n, _ in tds for x in ("--opaque-type", n)]
+    p = subprocess.run([C.BINDGEN, hp, "-o", out, "--formatter=none"] + fl, stdout=subprocess.PIPE, stderr=subprocess.PIPE, text=True, timeout=300)
+    if p.returncode != 0:
+        res.violation("bindgen-failed:opaque-typedefs", {"stderr": p.stderr[-800:]})
+        return
+    bad, msg = rustc_batch([open(out).read()], w, "td")
+    if bad:
+        what = "size" if '"Size of' in msg else "align" if '"Alignment of' in msg else "offset" if '"Offset of' in msg else "other"
+        res.violation("layout-with-opaque-typedef:%s" % what, {"header": text, "rustc": msg[:900]})
+    res.add(opaque_typedefs=len(tds))
+
+
 def run(res, tier):
     res.assumptions += ["the user definition of a blocklisted type is supplied as a raw line with the C size and alignment",
                         "C++ bases/template arguments are checked for layout on the host only"]
@@ -256,4 +290,5 @@ def run(res, tier):
     res.sample_case(cases[0])
     one_language(res, tier, cases, cxx=False)
     one_language(res, tier, cases[:: 2 if tier == "thorough" else 4], cxx=True)
+    opaque_typedefs(res)
     res.cov["exhaustive"] = tier == "thorough"
